@@ -82,7 +82,7 @@ func uvar(v uint64) []byte { return binary.AppendUvarint(nil, v) }
 
 // C06 — hostile or corrupted input yields an error, never a crash or bad column.
 func C06(c *vk.Ctx) {
-	c.Rule("corpus = one valid block per registry composition (rows built from the boundary alphabet; for LowCardinality compositions also the same block as a server may write it, with 16- and 64-bit keys) at revision 54460 and the C17 messages; mutations: (a) every byte offset x {8 bit flips, 00, FF}; (b) at every byte offset an 8-byte little-endian field overwritten with each of {0, 1, 127, 128, 255, 256, 65535, 65536, 2^31-1, 2^31, 2^32-1, 2^32, 2^40, 2^62, 2^63-256, 2^63-16, 2^63-8, 2^63-4, 2^63-3, 2^63-2, 2^63-1, 2^63, 2^63+1, 2^64-2, 2^64-1} (offsets, dictionary sizes, key counts, LowCardinality meta) and the byte replaced by the varint encoding of the same values (row / column counts, string lengths); (c) splices: prefix of one block + suffix of another block of the same column at every offset; (d) well-formed blocks of another shape than the one-column target (two columns with rows and as zero-row headers, in both orders; no columns at all, with and without a row count); (e) block headers whose column type is a parameterised family with ANY character string of length <= 4 over {' a = 1 , space - ( )} as parameter list, with 0 rows and with 1 claimed row, through Auto and into an inferring enum target; (e2) 14 parameterised type shapes (FixedString, DateTime64, Decimal, enums, and wrappers of FixedString) x 16 numeric parameters from 255 to beyond 2^64 and negative, in blocks claiming 0 / 1 / 2 / 4 rows, through Auto. Each mutant is decoded through the typed target and through Auto in a worker with a 3 GiB address-space limit and the block row cap lowered to 65536; oracle: returns (watchdog 30 s), no panic, process survives, and on success every column reports the block's row count and Row(i) works for all i. distinct_nontrivial = mutants evaluated (each is a distinct byte string by construction).")
+	c.Rule("corpus = one valid block per registry composition (rows built from the boundary alphabet; for LowCardinality compositions also the same block as a server may write it, with 16- and 64-bit keys) at revision 54460 and the C17 messages; mutations: (a) every byte offset x {8 bit flips, 00, FF}; (b) at every byte offset an 8-byte little-endian field overwritten with each of {0, 1, 127, 128, 255, 256, 65535, 65536, 2^31-1, 2^31, 2^32-1, 2^32, 2^40, 2^62, 2^63-256, 2^63-16, 2^63-8, 2^63-4, 2^63-3, 2^63-2, 2^63-1, 2^63, 2^63+1, 2^64-2, 2^64-1} (offsets, dictionary sizes, key counts, LowCardinality meta) and the byte replaced by the varint encoding of the same values (row / column counts, string lengths); (c) splices: prefix of one block + suffix of another block of the same column at every offset; (d) well-formed blocks of another shape than the one-column target (two columns with rows and as zero-row headers, in both orders; no columns at all, with and without a row count); (e) block headers whose column type is a parameterised family with ANY character string of length <= 4 over {' a = 1 , space - ( )} as parameter list, with 0 rows and with 1 claimed row, through Auto and into an inferring enum target; (e2) 14 parameterised type shapes (FixedString, DateTime64, Decimal, enums, and wrappers of FixedString) x 16 numeric parameters from 255 to beyond 2^64 and negative, in blocks claiming 0 / 1 / 2 / 4 rows, through Auto; likewise 28 type strings that name a parameterised family without its parameter list, bare and nested. Each mutant is decoded through the typed target and through Auto in a worker with a 3 GiB address-space limit and the block row cap lowered to 65536; oracle: returns (watchdog 30 s), no panic, process survives, and on success every column reports the block's row count and Row(i) works for all i. distinct_nontrivial = mutants evaluated (each is a distinct byte string by construction).")
 	c.Watchdog(30*time.Second, "C06/does-not-terminate")
 	rev := 54460
 	quick := c.Quick()
@@ -320,10 +320,20 @@ func C06(c *vk.Ctx) {
 			"18446744073709551615", "18446744073709551616", "99999999999999999999999", "-1", "-9223372036854775808"}
 		shapes := []string{"FixedString(%s)", "DateTime64(%s)", "Decimal(%s, 2)", "Decimal(9, %s)", "Decimal32(%s)", "Enum8('a' = %s)", "Enum16('a' = %s)", "Array(FixedString(%s))", "Nullable(FixedString(%s))",
 			"LowCardinality(FixedString(%s))", "Map(String, FixedString(%s))", "Tuple(FixedString(%s), UInt8)", "Array(Array(FixedString(%s)))", "DateTime64(%s, 'UTC')"}
+		// and the parameterised families with no parameter list at all, bare and nested
+		bare := []string{"DateTime64", "DateTime", "Decimal", "FixedString", "Enum8", "Enum16", "Array", "Map", "Nullable", "LowCardinality", "Tuple", "Nested", "Interval", "Decimal32", "Decimal256",
+			"Array(DateTime64)", "Nullable(DateTime64)", "LowCardinality(DateTime64)", "Array(Decimal)", "Array(FixedString)", "Array(Enum8)", "Map(String, DateTime64)", "Map(DateTime64, String)",
+			"Tuple(DateTime64, UInt8)", "DateTime64()", "Array(DateTime64())", "Array(Array(DateTime64))", "Nullable(Enum16)"}
+		shapes = append(shapes, bare...)
 		var n int64
 		for _, sh := range shapes {
-			for _, num := range nums {
-				ts := fmt.Sprintf(sh, num)
+			for ni, num := range nums {
+				ts := sh
+				if strings.Contains(sh, "%s") {
+					ts = fmt.Sprintf(sh, num)
+				} else if ni > 0 {
+					break
+				}
 				for _, rows := range []int{0, 1, 2, 4} {
 					n++
 					id := fmt.Sprintf("header-param/%s/rows=%d", ts, rows)
